@@ -193,7 +193,18 @@ func (w *c01Sess) apply(op int) {
 		}
 		w.disk[1] = w.buf[1]
 		zzverif.WriteFile(w.path(1), w.disk[1])
-		_ = w.s.DidSave(w.ctx, &protocol.DidSaveTextDocumentParams{TextDocument: protocol.TextDocumentIdentifier{URI: w.uri(1)}})
+		save := func() {
+			_ = w.s.DidSave(w.ctx, &protocol.DidSaveTextDocumentParams{TextDocument: protocol.TextDocumentIdentifier{URI: w.uri(1)}})
+		}
+		if w.hold {
+			// whatever analysis the save starts stays pending
+			zzNotify(w.s, save)
+		} else {
+			// the save, then the analyses it starts (documents that include the saved file)
+			zzWaited(w.s, save)
+			c01Settle()
+			w.savedAfterMain = false
+		}
 	case c01OpFlickInclude:
 		// the include line is commented out and restored (two changes): the included files leave
 		// the tree and enter it again
